@@ -164,7 +164,13 @@ def gen_case(seed, tier='quick'):
             else:
                 ops.append({'op': 'eval', 'target': rng.choice(
                     formulas or order)})
-        elif r < 0.75:
+        elif r < 0.70:
+            ops.append(persist())
+        elif r < 0.76:
+            pool = order + list(world['names']) + list(world['range_names'])
+            ops.append({'op': 'extract',
+                        'focus': rng.sample(pool, rng.randint(
+                            1, min(3, len(pool))))})
             ops.append(persist())
         elif gens < 4:
             ops.append(restore())
@@ -248,6 +254,18 @@ def _run(case, fs, amb):
             evaluated = True
             log.append([seq, 'eval_all', len(vals)])
             sig.append('E')
+        elif kind == 'extract':
+            if not compiled:
+                continue
+            from xlcalculator import ModelCompiler
+            try:
+                model = ModelCompiler.extract(model, op['focus'])
+                log.append([seq, 'extract', 'ok'])
+                bump('probe:persisted_model_is_an_extract')
+                sig.append('x')
+            except Exception as e:
+                # extraction itself is C13's business
+                log.append([seq, 'extract', type(e).__name__])
         elif kind == 'build_code':
             out = outcome_of(model.build_code)
             compiled = True
